@@ -38,6 +38,14 @@ def parseValFuel : Nat → List Char → Option Val
     | 'f' :: rest => (hexNat rest).map (.flt 32)
     | 'd' :: rest => (hexNat rest).map (.flt 64)
     | 'x' :: rest => (if rest.isEmpty then some [] else parseHex (String.ofList rest)).map .bytes
+    | 'u' :: rest =>
+      match splitTop ':' rest with
+      | tid :: more =>
+        match parseInt (String.ofList tid), parseValFuel fuel (":".intercalate (more.map String.ofList)).toList with
+        | some _, some .null => some .null
+        | some t, some v => some (.union t v)
+        | _, _ => none
+      | _ => none
     | '[' :: rest =>
       if rest.getLast? != some ']' then none else
       let inner := rest.dropLast
@@ -55,7 +63,8 @@ def parseVal (s : String) : Option Val := parseValFuel (s.length + 1) s.toList
 /-- a column: tokens with their parsed values -/
 def parseCol (s : String) : Option (List (String × Val)) :=
   if s = "-" then some [] else
-  (splitTop ',' s.toList).mapM (fun t => (parseVal (String.ofList t)).map (fun v => (String.ofList t, v)))
+  (splitTop ',' s.toList).mapM (fun t => (parseVal (String.ofList t)).map (fun v =>
+    (if v == Val.null then "n" else String.ofList t, v)))
 
 def parseOpts (s : String) : Option SortOptions :=
   match s.toList with
@@ -202,8 +211,11 @@ def handle (toks : List String) : String :=
         if cols.any (fun c => c.length != n) then "ERR:invalid-arg" else
         let cs := cols.map (fun c => colCmpModel ascNF c c)
         let ss := cols.map (fun c => colCmpSpec ascNF c c)
-        check (showRanges (partitionRanges (partitionBounds cs n) n))
-              (showRanges (rangesSpec (boundarySpec (lexCmp ss) n) n))
+        let m := partitionRanges (partitionBounds cs n) n
+        let sp := rangesSpec (boundarySpec (lexCmp ss) n) n
+        -- `Partitions::len` = set bits + 1 (0 for no rows), `is_empty` = no rows
+        let lenM := if n = 0 then 0 else ((partitionBounds cs n).filter id).length + 1
+        check s!"{showRanges m} {lenM} {showBool (n == 0)}" s!"{showRanges sp} {sp.length} {showBool (n == 0)}"
     | none => "bad-op"
   | ["kernel", op, _tl, _tr, _vl, _vr, sc, l, r] =>
     match parseOp op, parseCol l, parseCol r with
@@ -220,6 +232,56 @@ def handle (toks : List String) : String :=
       let s := (List.range len).map (fun i => showOB (kernelSpec (cmpVal ascNF) op (lv i) (rv i)))
       check (if m.isEmpty then "-" else String.ofList m) (if s.isEmpty then "-" else String.ofList s)
     | _, _, _ => "bad-op"
+  | ["native", _ty, a, b] =>
+    match parseVal a, parseVal b with
+    | some a, some b =>
+      let o := cmpVal ascNF a b
+      String.ofList (showOrd o :: (nativeOps o).map (fun x => if x then '1' else '0'))
+    | _, _ => "bad-op"
+  | ["pvalid", _ty, _var, c] =>
+    match parseCol c with
+    | some c =>
+      let (v, n) := partitionValidity (opts c)
+      -- specification: the valid / null positions in ascending order
+      let sv := (List.range c.length).filter (fun i => ((opts c).getD i none).isSome)
+      let sn := (List.range c.length).filter (fun i => ((opts c).getD i none).isNone)
+      check s!"{showList toString (v.map (·.1))};{showList toString n}"
+            s!"{showList toString sv};{showList toString sn}"
+    | none => "bad-op"
+  | "lexcmp" :: _n :: rest =>
+    match parseSortCols rest with
+    | some cols =>
+      match cols with
+      | [] => "ERR:invalid-arg"
+      | (_, c0) :: _ =>
+        let n := c0.length
+        let cs := cols.map (fun p => colCmpModel p.1 p.2 p.2)
+        let ss := cols.map (fun p => colCmpSpec p.1 p.2 p.2)
+        let render (f : Nat → Nat → Ordering) : String :=
+          if n = 0 then "-" else
+          "/".intercalate ((List.range n).map (fun i => String.ofList ((List.range n).map (fun j => showOrd (f i j)))))
+        check (render (lexCompareModel cs)) (render (lexCmp ss))
+    | none => "bad-op"
+  | ["viewcmp", _ty, _vl, _vr, l, r] =>
+    match parseCol l, parseCol r with
+    | some l, some r =>
+      let bytesOf (v : Val) : List Nat := match v with | .bytes b => b | _ => []
+      let render (f : List Nat → List Nat → Ordering) : String :=
+        if l.isEmpty then "-" else
+        "/".intercalate (l.map (fun a => if r.isEmpty then "-" else
+          String.ofList (r.map (fun b => showOrd (f (bytesOf a.2) (bytesOf b.2))))))
+      check (render cmpView) (render bytesCmp)
+    | _, _ => "bad-op"
+  | ["inlist", _ty, _kind, _var, c, l] =>
+    match parseCol c, parseCol l with
+    | some c, some l =>
+      if c.length != l.length then "ERR:compute" else
+      if c.isEmpty then "-" else
+      String.ofList ((List.zip c l).map (fun p => if inListRow p.1.2 p.2.2 then '1' else '0'))
+    | _, _ => "bad-op"
+  | ["cmpty", tl, tr, _l, _r] =>
+    -- `make_comparator` on arrays of different data types is an error, never a comparator
+    if tl = tr then "bad-op" else "ERR:invalid-arg"
   | ["psort", lim, xs] =>
     match lim.toNat?, parseList parseInt xs with
     | some lim, some xs =>
